@@ -347,6 +347,7 @@ func TestC09(t *testing.T) {
 			"(a) parser.IsQueryHandled against the documented rule with CQL identifier semantics; (b) end to end as QUERY and as PREPARE(+EXECUTE) with the keyspace set by a real USE or by the v5/DSEv2 PREPARE keyspace field: handled <=> the token never reaches a backend; "+
 			"non-trivial = the naive rule 'table name looks like a system table' disagrees with the model, or case/quoting matters; distinct by (class, text)")
 	defer finish(t, rec)
+	rec.SetJournalAll(true)
 	rec.Assume("CQL identifier rule: unquoted names fold to lower case, quoted names are exact", "whether a handled statement is answered with rows or INVALID is C10's business")
 
 	classify := func(s c09Stmt) string {
